@@ -12,8 +12,8 @@ func init() {
 	register(&Property{
 		ID:         "C30",
 		Level:      "other",
-		Technique:  "finite case analysis of the extension comparison of the fast-path Equal (decision table over membership/emptiness atoms, checked for symmetry); swap-invariance of the scalar and unknown-field comparators of both implementations (static)",
-		Explain:    "Decides structural necessary conditions of the equality laws: (1) the fast-path equalMessage compares extensions with two loops (over x's and over y's extension map); read as a decision procedure over the atoms `key in x`, `key in y`, `x's value is an empty list`, `y's value is an empty list`, `values equal`, and over the nil-ness of either map, its verdict for a key is symmetric under exchanging the two messages and does not depend on whether an absent side has a nil or an empty map — in particular the tolerance `empty repeated extension equals absent` applies in both directions; (2) every scalar comparison of protoreflect.Value.Equal is invariant under swapping its operands, and equalFloat treats two NaNs as equal and a NaN and a number as different; bytes are compared by content (bytes.Equal), so nil and empty agree; (3) both equalUnknown implementations (fast path and reflection) are invariant under swapping their arguments: the two grouping loops are mirror images and the grouped maps are compared by content.",
+		Technique:  "finite case analysis of the extension comparison of the fast-path Equal (decision table over membership/emptiness atoms, checked for symmetry); swap-invariance of the scalar and unknown-field comparators of both implementations; three-valued evaluation of the validity decision; aliasing rule for the unknown-field grouping (static)",
+		Explain:    "Decides structural necessary conditions of the equality laws: (1) the fast-path equalMessage compares extensions with two loops (over x's and over y's extension map); read as a decision procedure over the atoms `key in x`, `key in y`, `x's value is an empty list`, `y's value is an empty list`, `values equal`, and over the nil-ness of either map, its verdict for a key is symmetric under exchanging the two messages and does not depend on whether an absent side has a nil or an empty map — in particular the tolerance `empty repeated extension equals absent` applies in both directions; (2) every scalar comparison of protoreflect.Value.Equal is invariant under swapping its operands, and equalFloat treats two NaNs as equal and a NaN and a number as different; bytes are compared by content (bytes.Equal), so nil and empty agree; (3) both equalUnknown implementations (fast path and reflection) are invariant under swapping their arguments: the two grouping loops are mirror images and the grouped maps are compared by content. Further: proto.Equal, evaluated over the atoms mx.IsValid()/my.IsValid(), returns false for both mixed valuations before any comparison; both equalMessage implementations make presence part of equality (my.Has(fd) and the population counts in the reflective one; has()/which() mismatch in the fast path); neither equalUnknown appends onto storage that may alias an argument.",
 		NotCovered: "reflexivity/transitivity on values, agreement of the three implementations (fast path, reflection, protocmp) on concrete messages, Clone/decode round trips.",
 		Quick:      all("./internal/impl", "./reflect/protoreflect", "./proto"),
 		Thorough:   all("./..."),
